@@ -766,9 +766,9 @@ type nestCase struct {
 	MaxStackMB int `json:"max_stack_mb"`
 }
 
-// runNesting demonstrates F25 in a child process: with the goroutine stack limit lowered to MaxStackMB (the default
-// is 1000 MB; the limit only scales the depth that is needed) a statement with Depth nested parentheses ends the
-// process with Go's fatal "stack overflow"; a statement of 1/10 of that depth is parsed.
+// runNesting runs the parser in child processes with the goroutine stack limit lowered to MaxStackMB (the default is 1000 MB; the
+// limit only scales the depth that is needed): before commit 8131efe a statement with Depth nested parentheses ended the
+// process with Go's fatal "stack overflow" (finding F25).
 func runNesting(sec *vh.Section, c nestCase, verbose bool) {
 	child := func(depth int) (string, string) {
 		cmd := exec.Command(os.Args[0])
@@ -792,25 +792,40 @@ func runNesting(sec *vh.Section, c nestCase, verbose bool) {
 		}
 		return "died", firstLines(errb.String(), 3)
 	}
-	small, _ := child(c.Depth / 10)
+	// regression for the repaired finding F25 (commit 8131efe): depth 1000 is accepted, the witness depth and depth 200 000 are
+	// REFUSED with an error, quickly; a recurrence (the child dies of Go's fatal stack overflow) is tagged F25
+	t0 := time.Now()
+	small, smallOut := child(1000)
 	big, msg := child(c.Depth)
 	res.Eval(sec, fmt.Sprint("nesting", c))
 	res.Dist(sec, "nesting/"+big)
-	// MODEL: Nesting.parse with a budget proportional to the stack limit dies iff depth > budget; the per-level cost is not
-	// modelled, so the comparison is qualitative: shallow answers, deep dies
-	ans := batch([]string{fmt.Sprintf("nest %d %s", c.Depth/10, vh.HxS(strings.Repeat("(", c.Depth/10)+"a=1"+strings.Repeat(")", c.Depth/10))),
+	ans := batch([]string{fmt.Sprintf("nest %d %s", 1<<30, vh.HxS(strings.Repeat("(", 1000)+"a=1"+strings.Repeat(")", 1000))),
 		fmt.Sprintf("nest %d %s", c.Depth/10, vh.HxS(strings.Repeat("(", c.Depth)))})
 	if verbose {
-		fmt.Printf("nesting depth=%d stack=%dMB: shallow(%d)=%s deep=%s %s\n  model: %v\n", c.Depth, c.MaxStackMB, c.Depth/10, small, big, msg, ans)
+		fmt.Printf("nesting depth=%d stack=%dMB: 1000 -> %s %s; %d -> %s %s\n  model: %v\n", c.Depth, c.MaxStackMB, small, strings.TrimSpace(smallOut), c.Depth, big, strings.TrimSpace(msg), ans)
 	}
-	if small != "answered" {
-		res.SpecFail(vh.SpecFailure{Section: "nesting", Kind: "fatal-stack-overflow", Input: nestCase{c.Depth / 10, c.MaxStackMB}, Impl: small, Spec: "answered",
-			What: "a moderately nested statement already ends the process"})
+	if small != "answered" || !strings.Contains(smallOut, "false") {
+		res.SpecFail(vh.SpecFailure{Section: "nesting", Kind: "nesting-1000-not-accepted", Input: nestCase{1000, c.MaxStackMB}, Impl: small + " " + smallOut, Spec: "accepted",
+			Model: ans[0], ImplEqModel: modelKind(ans[0]) != "ok", What: "a statement with 1000 nested parentheses is not parsed"})
 	}
 	if big != "answered" {
-		res.SpecFail(vh.SpecFailure{Section: "nesting", Kind: "fatal-stack-overflow", Input: c, Impl: big + ": " + msg, Spec: "a result or an error",
-			Model: strings.Join(ans, " | "), ImplEqModel: modelKind(ans[0]) == "ok" && modelKind(ans[1]) == "panic", Finding: "F25",
+		res.SpecFail(vh.SpecFailure{Section: "nesting", Kind: "fatal-stack-overflow", Input: c, Impl: big + ": " + msg, Spec: "refused with an error",
+			Model: strings.Join(ans, " | "), ImplEqModel: modelKind(ans[1]) == "panic", Finding: "F25",
 			What: "lql.ParseLql recursion depth is unbounded"})
+		return
+	}
+	if !strings.Contains(msg, "true") {
+		res.Mismatch(vh.Mismatch{Section: "nesting", Function: "lql.ParseLql (nesting guard)", Input: c, Impl: "accepted", Model: ans[1]})
+	}
+	huge, hmsg := child(200000)
+	res.Dist(sec, "nesting200000/"+huge)
+	if huge != "answered" || !strings.Contains(hmsg, "true") || time.Since(t0) > 20*time.Second {
+		f := vh.SpecFailure{Section: "nesting", Kind: "fatal-stack-overflow", Input: nestCase{200000, c.MaxStackMB}, Impl: huge + ": " + hmsg + " after " + time.Since(t0).String(),
+			Spec: "refused with an error, quickly", What: "a statement with 200 000 nested parentheses is not refused quickly"}
+		if huge != "answered" {
+			f.Finding = "F25"
+		}
+		res.SpecFail(f)
 	}
 }
 
